@@ -20,8 +20,44 @@ import (
 var (
 	asciiRegex = regexp.MustCompile("^[A-Za-z0-9_-]+$")
 
-	// scheme ":" followed by unreserved / reserved characters and percent-encodings, with at most one '#' (RFC 3986)
-	uriRegex = regexp.MustCompile(`^[A-Za-z][A-Za-z0-9+.-]*:([A-Za-z0-9\-._~:/?\[\]@!$&'()*+,;=]|%[0-9A-Fa-f]{2})*(#([A-Za-z0-9\-._~:/?\[\]@!$&'()*+,;=]|%[0-9A-Fa-f]{2})*)?$`)
+	// the URI production of RFC 3986 (appendix A)
+	uriRegex = regexp.MustCompile(`^` + uriScheme + `:` + uriHierPart + `(?:\?` + uriQuery + `)?(?:#` + uriQuery + `)?$`)
+)
+
+// RFC 3986, appendix A.
+const (
+	uriPct        = `%[0-9A-Fa-f]{2}`
+	uriUnreserved = `A-Za-z0-9\-._~`
+	uriSubDelims  = `!$&'()*+,;=`
+	uriPchar      = `(?:[` + uriUnreserved + uriSubDelims + `:@]|` + uriPct + `)`
+	uriQuery      = `(?:` + uriPchar + `|[/?])*`
+	uriScheme     = `[A-Za-z][A-Za-z0-9+.\-]*`
+
+	uriDecOctet = `(?:25[0-5]|2[0-4][0-9]|1[0-9][0-9]|[1-9]?[0-9])`
+	uriIPv4     = uriDecOctet + `(?:\.` + uriDecOctet + `){3}`
+	uriH16      = `[0-9A-Fa-f]{1,4}`
+	uriLS32     = `(?:` + uriH16 + `:` + uriH16 + `|` + uriIPv4 + `)`
+	uriIPv6     = `(?:` +
+		`(?:` + uriH16 + `:){6}` + uriLS32 +
+		`|::(?:` + uriH16 + `:){5}` + uriLS32 +
+		`|(?:` + uriH16 + `)?::(?:` + uriH16 + `:){4}` + uriLS32 +
+		`|(?:(?:` + uriH16 + `:){0,1}` + uriH16 + `)?::(?:` + uriH16 + `:){3}` + uriLS32 +
+		`|(?:(?:` + uriH16 + `:){0,2}` + uriH16 + `)?::(?:` + uriH16 + `:){2}` + uriLS32 +
+		`|(?:(?:` + uriH16 + `:){0,3}` + uriH16 + `)?::` + uriH16 + `:` + uriLS32 +
+		`|(?:(?:` + uriH16 + `:){0,4}` + uriH16 + `)?::` + uriLS32 +
+		`|(?:(?:` + uriH16 + `:){0,5}` + uriH16 + `)?::` + uriH16 +
+		`|(?:(?:` + uriH16 + `:){0,6}` + uriH16 + `)?::` +
+		`)`
+	uriIPvFuture = `[vV][0-9A-Fa-f]+\.[` + uriUnreserved + uriSubDelims + `:]+`
+	uriHost      = `(?:\[(?:` + uriIPv6 + `|` + uriIPvFuture + `)\]|(?:[` + uriUnreserved + uriSubDelims + `]|` + uriPct + `)*)`
+	uriUserinfo  = `(?:[` + uriUnreserved + uriSubDelims + `:]|` + uriPct + `)*`
+	uriAuthority = `(?:` + uriUserinfo + `@)?` + uriHost + `(?::[0-9]*)?`
+
+	// "//" authority path-abempty / path-absolute / path-rootless / path-empty
+	uriHierPart = `(?://` + uriAuthority + `(?:/` + uriPchar + `*)*` +
+		`|/(?:` + uriPchar + `+(?:/` + uriPchar + `*)*)?` +
+		`|` + uriPchar + `+(?:/` + uriPchar + `*)*` +
+		`|)`
 )
 
 const (
@@ -300,13 +336,14 @@ func validateURI(uri string) error {
 	}
 
 	// ParseRequestURI parses an HTTP request target: it also accepts '*' and paths without a scheme, and (like
-	// the rest of net/url) characters that RFC 3986 does not allow in a URI
+	// the rest of net/url) characters that RFC 3986 does not allow in a URI, or not where they stand (brackets
+	// outside an IP literal, '@' inside the user information or host, a port that is not a number)
 	if !u.IsAbs() {
 		return fmt.Errorf("service endpoint '%s' is not a valid URI: missing scheme", uri)
 	}
 
 	if !uriRegex.MatchString(uri) {
-		return fmt.Errorf("service endpoint '%s' is not a valid URI: invalid character", uri)
+		return fmt.Errorf("service endpoint '%s' is not a valid URI (RFC 3986)", uri)
 	}
 
 	return nil
